@@ -1,5 +1,6 @@
 """Obligations, verdicts and the E1-generic obligation runner (DESIGN §2.4–2.7, §2.10)."""
 import builtins
+import copy
 import json
 import os
 import signal
@@ -96,7 +97,7 @@ class GOb(Obligation):
     engine = "E1-generic"
 
     def __init__(self, pid, name, function, setup, call, post=None, tenalg=None, raises=None, assumptions=None,
-                 allowed_prims=None, dtypes=("float64",), check_dtype=False, **kw):
+                 allowed_prims=None, dtypes=("float64",), check_dtype=False, side_nonzero=False, **kw):
         super().__init__(pid, name, function, **kw)
         self.setup, self.call, self.post = setup, call, post
         self.tenalg = tenalg
@@ -105,6 +106,7 @@ class GOb(Obligation):
         self.allowed_prims = allowed_prims
         self.dtypes = dtypes
         self.check_dtype = check_dtype
+        self.side_nonzero = side_nonzero  # prove under "quantities tested by where(q == 0, ..) are non-zero"
 
     # ---- symbolic run
     def run(self):
@@ -121,8 +123,13 @@ class GOb(Obligation):
     def _run(self):
         with B.symbolic_session(tenalg=self.tenalg):
             G.INPUTS.clear()
+            G.SIDE["nonzero_where"] = self.side_nonzero
+            G.SIDE["used"] = []
+            from . import expr as _X
+            _X.RULES["sign_sq_one"] = bool(self.side_nonzero)
             S = SymNS()
             I = self.setup(S)
+            self._extra_atoms = _sint_atoms(I)
             assum = self.assumptions(I) if self.assumptions else []
             state = {}
 
@@ -199,7 +206,7 @@ class GOb(Obligation):
     # ---- concretisation
     def _envs(self, path, n=3):
         """Candidate size assignments satisfying assumptions ∧ path condition."""
-        names = sorted(_atoms_of(self, path))
+        names = sorted(_atoms_of(self, path) | getattr(self, "_extra_atoms", set()))
         out = []
         for k in range(n):
             env = {a: max(atom_lower(a), 2 + ((i + k) % 3) + (1 if k == 2 else 0)) for i, a in enumerate(names)}
@@ -219,6 +226,7 @@ class GOb(Obligation):
             rng = np.random.RandomState(seed)
             S = NumNS(env, rng)
             I = concretize_args(self.setup(S), env)
+            I0 = copy.deepcopy(I)  # the spec is evaluated on the inputs as they were before the call
             try:
                 res = self.call(I)
             except Exception as e:  # noqa
@@ -227,7 +235,7 @@ class GOb(Obligation):
                 return False, f"exception {type(e).__name__}: {e}"
             if self.raises is not None:
                 return False, f"no {self.raises.__name__} raised"
-            for label, got, want in (self.post(S, I, res) if self.post else []):
+            for label, got, want in (self.post(S, I0, res) if self.post else []):
                 ok, info = compare_num(got, want)
                 if not ok:
                     return False, f"{label}: {info}"
@@ -264,12 +272,14 @@ class GOb(Obligation):
             # evaluate symbolic `got` values on the inputs NumNS draws, compare with the native `got`
             with _native_backend(self.tenalg):
                 I = concretize_args(self.setup(S), env)
+                I0 = copy.deepcopy(I)
+                inputs0 = copy.deepcopy(S.inputs)
                 nres = self.call(I)
-                npairs = self.post(S, I, nres)
+                npairs = self.post(S, I0, nres)
             for (label, got, want), (_, ngot, nwant) in zip(pairs, npairs):
                 if not isinstance(got, G.GTensor):
                     continue
-                sv = G.evaluate(got, env, S.inputs)
+                sv = G.evaluate(got, env, inputs0)
                 ok, info = compare_num(sv, np.asarray(ngot), 1e-7, 1e-8)
                 if not ok:
                     return False, f"symbolic result of the code side disagrees with the native run at {env}: {label}: {info}"
@@ -320,6 +330,19 @@ def _atoms_of(ob, path):
             if isinstance(c, SBool):
                 names.update(c.p.atoms())
     return names
+
+
+def _sint_atoms(obj, depth=0):
+    out = set()
+    if isinstance(obj, SInt):
+        out.update(obj.atoms())
+    elif isinstance(obj, dict) and depth < 4:
+        for v in obj.values():
+            out |= _sint_atoms(v, depth + 1)
+    elif isinstance(obj, (list, tuple)) and depth < 4:
+        for v in obj:
+            out |= _sint_atoms(v, depth + 1)
+    return out
 
 
 def _satisfies(path, env):
